@@ -24,7 +24,7 @@ Helper(e) == [ negotiated |-> \A i \in 1..Len(e.res) : AnswerOK(e.mine, e.theirs
 \* path.  For a pairing whose highest common version is implemented both transfers must succeed; for a higher one the
 \* large find-content must still succeed with the stored bytes (both sides frame alike) and an offer may fail but must
 \* not deliver anything else than what was offered.
-Implemented == {0, 1}
+Implemented == V!Implemented
 Transfer(e) ==
    LET common == SetOf(e.a) \cap SetOf(e.b)
        hc == IF common = {} THEN -1 ELSE V!MaxOf(common) IN
